@@ -487,6 +487,18 @@ func runC04(c *core.Ctx) {
 			}
 			w.Write(p, k.content())
 		}
+		if w.Hist%10 == 8 {
+			// file names containing a backslash: legal on this platform, not a separator
+			for _, p := range []string{"a\\b", "dir\\file.txt", "d/x\\y", "c:\\temp\\z", "tail\\"} {
+				w.Write(p, k.content())
+			}
+			k.goit("add", "a\\b", "dir\\file.txt")
+			k.goit("add", "d", "c:\\temp\\z", "tail\\")
+			k.goit("rm", "a\\b")
+			w.Write("a\\b", k.content())
+			k.goit("add", ".")
+			c.Count("C04.names-with-backslash")
+		}
 		if w.Hist%10 == 4 {
 			// paths that spell out the working directory's own absolute location again beneath it (an extracted
 			// backup, tar -P, rsync -R), and paths that repeat their own prefix
